@@ -902,8 +902,9 @@ func (vc *VC) applyLoopFrame(li *loopInfo, pre *State, comps []string) {
 //
 // A helper without a contract (for instance one extracted by a refactoring) is verified as part of
 // each caller under contract: its body is translated in place, on the caller's state and path. Only
-// loop-free, non-recursive functions without defer are inlined, to a depth of 3; anything else is
-// outside the subset (the caller's obligations are then undecided and reported as #binding).
+// non-recursive functions without defer, go or closures are inlined, to a depth of 3; anything else is
+// outside the subset (the caller's obligations are then undecided and reported as #binding). Loops of an
+// inlined callee have no invariants: everything they write is havoced at their head.
 
 type inlineFrame struct {
 	fn       *ssa.Function
@@ -932,11 +933,6 @@ func (vc *VC) inlinable(fn *ssa.Function) string {
 		}
 	}
 	for _, b := range fn.Blocks {
-		for _, s := range b.Succs {
-			if isBackEdge(b, s) {
-				return "it has a loop, which needs an invariant"
-			}
-		}
 		for _, in := range b.Instrs {
 			switch in.(type) {
 			case *ssa.Defer, *ssa.Go, *ssa.MakeClosure:
@@ -987,6 +983,9 @@ func (vc *VC) inlineCall(x *ssa.Call, fn *ssa.Function, args []Term) []Term {
 	for i, p := range fn.Params {
 		vc.vals[p] = args[i]
 	}
+	// loops of an inlined callee carry no annotations: what they write is havoced at the loop head (sound; the
+	// caller's obligations that depend on what the loop computes are then undecided and fail by name)
+	vc.findLoops()
 	vc.computeReachability()
 	for _, b := range vc.topoOrder() {
 		vc.block(b)
